@@ -162,11 +162,15 @@ class HitranCiaGrid(Logger):
             Master temperature grid
 
         """
+        # Range of temperatures actually present in the file for this grid;
+        # taken before filling, since the zero-filled entries added below
+        # must not widen it
+        t_min, t_max = min(self.temperature), max(self.temperature)
         for t in temperatures:
             if t in self.temperature:
                 continue
             self.debug('Tempurature %s, %s', t)
-            if t < min(self.temperature) or t > max(self.temperature):
+            if t < t_min or t > t_max:
                 self.add_temperature(t, np.zeros_like(self.wn))
             else:
                 indicies = self.find_closest_temperature_index(t)
